@@ -896,10 +896,16 @@ def client_case_st(draw):
         pers['via'] = 'text'
         pers.setdefault('form', 'slash')
     how = draw(st.sampled_from(['default', 'falsy', 'falsy', 'equal', 'equal', 'port', 'link', 'linkkind', 'append',
-                                'drop_or_prepend', 'swap_or_other']))
+                                'drop_or_prepend', 'swap_or_other', 'own_default', 'own_default']))
     cli = {'how': how, 'send_path': draw(st.sampled_from([None, None, '@6/1']))}
     if how == 'default':
         cli['route'] = None
+    elif how == 'own_default':
+        # the connector's own route_path_default (documented attribute) decides when the caller names no route path
+        cli['route'] = None
+        cli['own_default'] = draw(st.sampled_from(['False', '0', '[]', '1/3', '2/10.0.0.7']))
+        if cli['own_default'] in ('False', '0', '[]'):
+            cli['send_path'] = draw(st.sampled_from([None, '', '@6/1']))
     elif how == 'falsy':
         cli['route'] = draw(st.sampled_from(['False', '0', '[]']))
         cli['send_path'] = draw(st.sampled_from([None, '', '', '@6/1']))
@@ -920,7 +926,11 @@ def pred_client(case, stats):
     c = cp()
     specs, pers, cli, req = case['specs'], case['pers'], case['client'], case['req']
     # what the documentation of client.unconnected_send says will be sent
-    if cli['how'] == 'default':
+    own = None
+    if cli['how'] == 'own_default':
+        own = {'False': False, '0': 0, '[]': [], '1/3': '1/3', '2/10.0.0.7': '2/10.0.0.7'}[cli['own_default']]
+        arg, eff = None, {'1/3': [[1, 3]], '2/10.0.0.7': [[2, '10.0.0.7']]}.get(cli['own_default'], [])
+    elif cli['how'] == 'default':
         arg, eff = None, [[1, 0]]           # "The default route_path is the CPU in chassis (link 0), port 1"
     elif cli['how'] == 'falsy':
         arg, eff = {'False': False, '0': 0, '[]': []}[cli['route']], []
@@ -957,7 +967,12 @@ def pred_client(case, stats):
         del cap.frames[:]
         stats.case(case, nontrivial=nontrivial, classes=classes)
         try:
-            cap.unconnected_send(request=msg, route_path=arg, send_path=send_path, sender_context=b'C15')
+            if cli['how'] == 'own_default':
+                cap.route_path_default = own
+            try:
+                cap.unconnected_send(request=msg, route_path=arg, send_path=send_path, sender_context=b'C15')
+            finally:
+                cap.__dict__.pop('route_path_default', None)
         except Exception as exc:
             stats.fail('client', 'client:unconnected_send-raises-%s' % type(exc).__name__, case,
                        observed={'route_path': arg, 'send_path': send_path, 'raised': str(exc)[:200]},
@@ -1170,8 +1185,14 @@ def _cli_child(case):
             fh.write('[UCMM]\nRoute Path = %s\n' % case['config_text'])
         run_argv = ['--config', os.path.join(cfgdir, 'vp.cfg')] + run_argv
         classes.add('cli:config-file')
+    kw = {}
+    if 'ucmm_kw' in case:
+        # personality handed to main() programmatically (UCMM_class=...), as the library's own simple-device simulators do
+        rp = case['ucmm_kw']
+        kw['UCMM_class'] = type('UCMM', (c['ucmm'].UCMM,), {'route_path': False if rp is False else segs_of(rp)})
+        classes.add('cli:UCMM_class-keyword')
     try:
-        srv = sim.TcpServer(specs, extra_argv=run_argv, attribute_class=c['counting'], no_config=cfgdir is None)
+        srv = sim.TcpServer(specs, extra_argv=run_argv, attribute_class=c['counting'], no_config=cfgdir is None, **kw)
     except (RuntimeError, AssertionError) as exc:
         stats.case(case, classes=sorted(classes))
         m = re.search(r'did not start: (\w+)\(', str(exc))
@@ -1244,6 +1265,11 @@ def cli_config(argv_kind, path=None, form='slash'):
         return [argv_kind], {'kind': 'simple', 'path': None}
     if argv_kind == 'falsey':
         return ['--route-path', path], {'kind': 'simple', 'path': None}
+    if argv_kind == 'kw':
+        if path is None:
+            return [], {'kind': 'simple', 'path': None, 'ucmm_kw': False}
+        kind = 'single_num' if isinstance(path[0][1], int) else 'single_addr'
+        return [], {'kind': kind, 'path': path, 'ucmm_kw': path}
     if argv_kind.startswith('config'):
         # form = [config file text, command line ...]: documented (cpppo.cfg, ucmm.py): the configured Route Path is used only
         # if none is supplied at run time; null = any, false/0 = simple
@@ -1280,9 +1306,11 @@ def cli_case_st(draw, skey=None):
     """skey: None (drawn single-segment configuration) or a fixed [argv_kind, path, form]."""
     specs = draw(specs_st(all_addressed=True))
     config_text = None
+    ucmm_kw = 'absent'
     if skey:
         argv, pers = cli_config(*skey)
         config_text = pers.pop('config_text', None)
+        ucmm_kw = pers.pop('ucmm_kw', None) if 'ucmm_kw' in pers else 'absent'
     else:
         path = [[draw(port_st()), draw(link_st())]]
         form = draw(st.sampled_from(['slash', 'json_dicts', 'json_dict', 'json_strs']))
@@ -1290,6 +1318,8 @@ def cli_case_st(draw, skey=None):
     case = {'specs': specs, 'argv': argv, 'pers': pers, 'steps': draw(cli_steps_st(specs, pers, True))}
     if config_text is not None:
         case['config_text'] = config_text
+    if ucmm_kw != 'absent':
+        case['ucmm_kw'] = ucmm_kw
     return case
 
 
@@ -1314,6 +1344,8 @@ CLI_FIXED = [
     ['config', [[1, 0]], ['1/0', 'route', [[2, 5]], 'slash']],       # file + --route-path 2/5: the command line's
     ['config', None, ['false']],                                     # file says simple
     ['config', None, ['null']],                                      # file says any
+    ['kw', None, 'slash'],                                           # main(UCMM_class=<route_path False>): simple
+    ['kw', [[1, 3]], 'slash'],                                       # main(UCMM_class=<route_path 1/3>)
 ]
 
 
